@@ -144,6 +144,57 @@ def check(tier, seed):
                 req_tok = '-'      # '' is falsy: same as not given (the model's requested())
             cases.append(Case('gpsd-handshake', f'gpsd {req_tok} ' + ' '.join(chunks_t), impl, desc,
                               nontrivial=bool(dev_msgs), kind='+'.join(sorted(kinds))[:50]))
+        # setup() end to end: handshake loop over the stub socket, then the command header and one command
+        class Stop(Exception):
+            pass
+        n_setup = 0
+        for _ in range(40 if tier == 'quick' else 1500):
+            requested = rng.choice([None, '/dev/ttyACM1', '/dev/b', ''])
+            lists = []
+            chunks = []
+            for _c in range(rng.randrange(1, 4)):
+                devs = rng.sample(PATHS, rng.randrange(0, 4))
+                lists.append(devs)
+                line = json.dumps({'class': 'DEVICES', 'devices': [{'class': 'DEVICE', 'path': p_} for p_ in devs]}).encode()
+                pre = rng.choice([b'', b'{"class":"VERSION","release":"3.25"}\r\n', b'$GPRMC,1*00\r\n', b'\r\n'])
+                chunks.append(pre + line + b'\r\n')
+            if rng.random() < 0.5:      # several lists in one recv(): all are processed before the loop can stop
+                chunks = [b''.join(chunks)]
+            srv, SV = BK.gpsd_server(requested or None)
+            BK.StubSocket.plan = {'data_chunks': list(chunks) + [Stop], 'reply': b'OK'}
+            try:
+                srv.setup()
+                done = True
+            except Stop:
+                done = False
+            except AssertionError:
+                done = False
+            sel, en = None, False
+            # what the handshake must have selected by the time it stopped reading
+            seen = []
+            for ch, grp in zip(chunks, [lists] if len(chunks) == 1 else [[l] for l in lists]):
+                for paths in grp:
+                    if requested:
+                        if requested in paths:
+                            sel, en = requested, True
+                    elif paths:
+                        sel, en = paths[0], True
+                if en:
+                    break
+            desc = {'requested': requested, 'device_lists': lists, 'one_chunk': len(chunks) == 1}
+            n_setup += 1
+            if done != en or srv.selected_device != sel:
+                res.violation('setup(): handshake selected the wrong device or finished in the wrong state',
+                              {'property': 'C20', 'input': desc, 'expected': [sel, en], 'result': [srv.selected_device, srv.enabled, done]}, f'c20-setup|{bool(requested)}')
+            elif done:
+                if srv.cmd_header != b'&' + sel.encode() + b'=':
+                    res.violation('setup(): command header does not address the selected device', {'property': 'C20', 'input': desc, 'result': repr(srv.cmd_header)}, 'c20-header')
+                BK.StubSocket.plan = {'reply': b'OK'}
+                srv._transmit(b'\xb5\x62')
+                sent = BK.StubSocket.plan.get('sent', [b''])[0]
+                if not sent.startswith(b'&' + sel.encode() + b'='):
+                    res.violation('command addressed to a device other than the selected one', {'property': 'C20', 'input': desc, 'sent': repr(sent)}, 'c20-cmd')
+        res.notes['setup_runs'] = n_setup
         res.compare(cases)
         res.oblige('correspondence _parse_gpsd_msg (Tie A)', not res.disagreements)
         res.oblige('no-raise and selection oracle on the implementation', not res.violations)
